@@ -38,12 +38,16 @@ Findings on the unchanged tree (kept strict, see final report):
 Detection power (scratch copy, POREPY_SRC, quick tier; all exit 1 and the named obligation appears in a VIOLATION line):
   M1 expand_index_pointers: `lo[1:] - hi[0:-1]` -> `lo[1:] - hi[0:-1] - 1`  -> "expand_index_pointers: equals concatenated aranges"
      (and through it slice_sparse_matrix / zero_rows / merge_matrices obligations).
-  M2 merge_matrices: `num_added[lines_to_replace + 1]` -> `num_added[lines_to_replace]` -> "merge_matrices: dense A[lines] = B".
-  M3 stack_diag: `B.indices + indices_offset` -> `B.indices` -> "stack_diag: equals scipy.linalg.block_diag".
-  M4 _csx_matrix_from_dense_blocks: order="F" dropped in block_increase -> "csr_matrix_from_dense_blocks: equals block_diag".
+  M2 merge_matrices: `num_added[lines_to_replace + 1]` -> `num_added[lines_to_replace]` -> "merge_matrices: equals the dense reference"
+     (signature "sorted lines_to_replace") and "merge_matrices: result is a well-formed scipy matrix".
+  M3 stack_diag: `B.indices + indices_offset` -> `B.indices` -> "stack_diag: equals the dense reference" (signature "B has lines").
+  M4 _csx_matrix_from_dense_blocks: order="F" dropped in block_increase -> "cs{r,c}_matrix_from_dense_blocks: equals the dense reference".
   M5 rlencode: `np.array([-1])` -> `np.array([0])` -> "rlencode: repeat(C, num) restores A".
-  M6 slice_sparse_matrix: csc branch shape=(A.shape[0], N) -> (N, A.shape[0])... replaced by returning csr for csc input
-     -> "slice_sparse_matrix: format preserved" / dense mismatch.
+  M6 slice_sparse_matrix: `indptr[1:] = np.cumsum(...)` -> without cumsum -> "slice_sparse_matrix: result is a well-formed scipy matrix"
+     and "...: equals the dense reference" (the structural check runs before toarray(): scipy 1.15 segfaults on such storage).
+  M7 zero_rows: `indptr[rows + 1]` -> `indptr[rows] + 1` -> "zero_rows: equals the dense reference".
+  Benign refactoring that must stay green (and does): slice_sparse_matrix csc branch returning
+  `sps.csr_matrix((data, indices, indptr), shape=(N, A.shape[0])).T` (a csc matrix with the same content).
 """
 from __future__ import annotations
 
@@ -162,7 +166,21 @@ def _index_tuples(n, maxlen):
 
 
 def _wellformed(M):
+    """Structural validity of a csr/csc result, checked here first (scipy's check_format skips the monotonicity test when
+    indptr[-1] == 0 and toarray() then reads out of bounds), then by scipy's own full check."""
     try:
+        nl, nm = (M.shape[0], M.shape[1]) if M.format == "csr" else (M.shape[1], M.shape[0])
+        ip, ix, dt = np.asarray(M.indptr), np.asarray(M.indices), np.asarray(M.data)
+        if ip.ndim != 1 or ip.shape[0] != nl + 1:
+            return f"indptr has length {ip.shape} for {nl} lines"
+        if ip.dtype.kind not in "iu" or ix.dtype.kind not in "iu":
+            return f"index arrays are not integer ({ip.dtype}, {ix.dtype})"
+        if ip[0] != 0 or np.any(np.diff(ip) < 0):
+            return f"indptr {ip.tolist()} is not a non-decreasing sequence starting at 0"
+        if ip[-1] > ix.shape[0] or ix.shape[0] != dt.shape[0]:
+            return f"indptr[-1]={ip[-1]}, {ix.shape[0]} indices, {dt.shape[0]} data"
+        if ix[: ip[-1]].size and (ix[: ip[-1]].min() < 0 or ix[: ip[-1]].max() >= nm):
+            return f"indices {ix.tolist()} out of range [0, {nm})"
         with warnings.catch_warnings():
             warnings.simplefilter("ignore")
             M.check_format(full_check=True)
@@ -381,24 +399,28 @@ def _sweep_index_helpers(rep, mo, ao):
 
 
 def _matrix_family(quick):
-    """(grid, label) pairs.  quick: every grid over {absent, explicit 0, 1, 2} for shapes up to 2x2, over {absent, 1, 2} for 2x3/3x2/1x3/3x1,
-    every sparsity pattern with distinct values for 3x3 (+ explicit-zero variant).  thorough adds every 0/1/2 matrix of shape 3x3, 2x3, 3x2 with
-    its explicit-zero variant."""
+    """Grids of the unary sweep.
+    quick   : every grid over {absent, explicit 0, 1, 2} for shapes <= 2x2; over {absent, 1, 2} for 1x3 / 3x1; every sparsity pattern with
+              distinct stored values for 2x3, 3x2, 3x3 (explicit-zero variant for every 4th 3x3 pattern).
+    thorough: in addition every 0/1/2-valued 2x3, 3x2 and 3x3 matrix, and the explicit-zero variant of every pattern."""
     full = (None, 0.0, 1.0, 2.0)
     for r, c in ((1, 1), (1, 2), (2, 1), (2, 2)):
         for g in _grids(r, c, full):
-            yield g
-    for r, c in ((1, 3), (3, 1), (2, 3), (3, 2)):
+            yield g, False
+    for r, c in ((1, 3), (3, 1)):
         for g in _grids(r, c, (None, 1.0, 2.0)):
-            yield g
-            if not quick:
-                yield _with_explicit_zeros(g)
-    for g in _pattern_grids(3, 3):
-        yield g
-        yield _with_explicit_zeros(g)
+            yield g, False
+    for r, c in ((2, 3), (3, 2), (3, 3)):
+        for k, g in enumerate(_pattern_grids(r, c)):
+            yield g, False
+            if (not quick) or (r == 3 and c == 3 and k % 4 == 1):
+                yield _with_explicit_zeros(g), False
     if not quick:
+        for r, c in ((2, 3), (3, 2)):
+            for g in _grids(r, c, (None, 1.0, 2.0)):
+                yield g, False
         for g in _grids(3, 3, (None, 1.0, 2.0)):
-            yield g
+            yield g, True
 
 
 def _sweep_unary(rep, mo):
@@ -406,28 +428,30 @@ def _sweep_unary(rep, mo):
     v = _V(rep)
     with rep.sweep(
         "slice / zero / storage / kron",
-        rule="matrices: every grid over {absent, explicit 0, 1, 2} for shapes <= 2x2; over {absent, 1, 2} for 1x3, 3x1, 2x3, 3x2; every 3x3 "
-             "sparsity pattern with distinct values and its explicit-zero variant (thorough: every 0/1/2-valued 3x3 matrix and explicit-zero "
-             "variants of 2x3/3x2); each in csr and csc with sorted and reversed (unsorted) indices, coo for the format-agnostic functions; "
-             "index sets: every tuple of line indices of length <= 3 (incl. repeats and unsorted order; length <= 2 plus permutations for "
-             "the 3x3 thorough family), every boolean mask, python int and np.int64 scalars; nontrivial = matrix has a stored entry and "
-             "the index set is non-empty; distinct by (function, matrix, storage, index set)",
-        bound="shape <= 3x3, values 0/1/2, index tuples of length <= 3",
+        rule="matrices: every grid over {absent, explicit 0, 1, 2} for shapes <= 2x2; over {absent, 1, 2} for 1x3, 3x1; every sparsity "
+             "pattern with distinct stored values for 2x3, 3x2, 3x3 (+ explicit-zero variant of every 4th 3x3 pattern); thorough adds "
+             "every 0/1/2-valued 2x3, 3x2, 3x3 matrix and the explicit-zero variant of every pattern; each in csr and csc with sorted and "
+             "(when a line holds > 1 entry) reversed indices (alternating for the 19683 3x3 0/1/2 matrices), coo for the format-agnostic "
+             "functions; index sets: every tuple of line indices of length <= 3 incl. repeats and unsorted order (3-line matrices in "
+             "quick and the 3x3 0/1/2 family: length <= 2 plus all permutations), every boolean mask, python int and np.int64 scalars; "
+             "nontrivial = matrix has a stored entry and the index set is non-empty; distinct by (function, matrix, storage, index set)",
+        bound="shape <= 3x3, values 0/1/2 (or distinct 1..9), index tuples of length <= 3",
         exhaustive=True,
     ) as sw:
-        for grid in _matrix_family(quick):
+        for gnum, (grid, big) in enumerate(_matrix_family(quick)):
             r, c = len(grid), len(grid[0])
-            ez = any(x == 0.0 and x is not None for row in grid for x in row)
-            big = (r == 3 and c == 3 and not quick and all((x is None or x in (1.0, 2.0)) for row in grid for x in row)
-                   and len({x for row in grid for x in row if x is not None}) <= 2 and not ez)
+            ez = any(x is not None and x == 0.0 for row in grid for x in row)
             stored = any(x is not None for row in grid for x in row)
             gkey = tuple(tuple(-1 if x is None else x for x in row) for row in grid)
             for fmt in ("csr", "csc"):
                 nlines = r if fmt == "csr" else c
-                idx_sets = list(_index_tuples(nlines, 2 if big else 3))
-                if big:
+                short = big or (quick and nlines == 3)
+                idx_sets = list(_index_tuples(nlines, 2 if short else 3))
+                if short:
                     idx_sets += list(itertools.permutations(range(3)))
-                for rev in (False, True):
+                multi = any(len([1 for x in line if x is not None]) > 1 for line in (grid if fmt == "csr" else zip(*grid)))
+                revs = ((gnum % 2 == 1) and multi,) if big else ((False, True) if multi else (False,))
+                for rev in revs:
                     ssig = _storage_sig(fmt, rev, ez)
                     M0, dense, lines = _build(grid, fmt, rev)
                     base_inp = {"grid": grid, "format": fmt, "reversed_indices": rev}
@@ -435,9 +459,10 @@ def _sweep_unary(rep, mo):
                     for t in idx_sets:
                         ind = np.array(t, dtype=np.int64)
                         inp = dict(base_inp, ind=list(t))
-                        sig = ssig + (" empty index" if not t else (" repeated index" if len(set(t)) < len(t) else ""))
+                        sig = ("empty index" if not t else ("repeated index" if len(set(t)) < len(t) else
+                                                              ("unsorted index" if list(t) != sorted(t) else "sorted distinct index")))
                         exp = dense[ind, :] if fmt == "csr" else dense[:, ind]
-                        M, _, _ = _build(grid, fmt, rev)
+                        M = M0
                         ok, R = v.call("slice_sparse_matrix", sig, inp, lambda: mo.slice_sparse_matrix(M, ind))
                         sw.case(("slice", gkey, fmt, rev, t), nontrivial=stored and len(t) > 0, sample=inp)
                         if ok:
@@ -476,10 +501,10 @@ def _sweep_unary(rep, mo):
                     # -- boolean masks and scalar indices
                     for mask in itertools.product((False, True), repeat=nlines):
                         inp = dict(base_inp, mask=list(mask))
-                        sig = ssig + " boolean mask"
+                        sig = "boolean mask"
                         sel = [k for k in range(nlines) if mask[k]]
                         exp = dense[sel, :] if fmt == "csr" else dense[:, sel]
-                        M, _, _ = _build(grid, fmt, rev)
+                        M = M0
                         ok, R = v.call("slice_sparse_matrix", sig, inp, lambda: mo.slice_sparse_matrix(M, np.array(mask, dtype=bool)))
                         sw.case(("slice-mask", gkey, fmt, rev, mask), nontrivial=stored and any(mask), sample=inp)
                         if ok:
@@ -493,9 +518,9 @@ def _sweep_unary(rep, mo):
                     for k in range(nlines):
                         for scalar, sname in ((int(k), "python int"), (np.int64(k), "numpy integer scalar")):
                             inp = dict(base_inp, ind=int(k), kind=sname)
-                            sig = ssig + " " + sname
+                            sig = sname
                             exp = dense[[k], :] if fmt == "csr" else dense[:, [k]]
-                            M, _, _ = _build(grid, fmt, rev)
+                            M = M0
                             if sname == "python int":  # documented: `ind: np.ndarray | int`
                                 ok, R = v.call("slice_sparse_matrix", sig, inp, lambda: mo.slice_sparse_matrix(M, scalar))
                                 sw.case(("slice-int", gkey, fmt, rev, k), nontrivial=stored)
@@ -514,9 +539,12 @@ def _sweep_unary(rep, mo):
                                 if not good:
                                     v.bad("slice_indices: stored indices of the sliced lines and their storage positions", sig, inp,
                                           f"expected {e_idx}, got {R}")
+                    if not np.array_equal(M0.toarray(), dense):
+                        v.bad("slice_sparse_matrix / slice_indices: the matrix argument is not modified", ssig, base_inp, "matrix changed")
             # -- format-agnostic: optimized_compressed_storage, sparse_kronecker_product (csr, csc, coo)
+            nstored = sum(1 for row in grid for x in row if x is not None)
             for fmt in ("csr", "csc", "coo"):
-                for rev in (False, True):
+                for rev in ((gnum % 2 == 1,) if big else ((False, True) if nstored > 1 else (False,))):
                     ssig = _storage_sig(fmt, rev, ez)
                     M, dense, _ = _build(grid, fmt, rev)
                     inp = {"grid": grid, "format": fmt, "reversed_indices": rev}
@@ -573,7 +601,7 @@ def _sweep_binary(rep, mo):
                                     A, dA, _ = _build_shape(gA, shA, fmt, rev)
                                     B, dB, _ = _build_shape(gB, shB, fmt, rev)
                                     inp = {"A": gA, "B": gB, "shape_B": shB, "lines": list(sel), "format": fmt, "reversed_indices": rev}
-                                    sig = ssig + (" no lines replaced" if k == 0 else (" unsorted lines" if list(sel) != sorted(sel) else ""))
+                                    sig = "no lines replaced" if k == 0 else ("unsorted lines_to_replace" if list(sel) != sorted(sel) else "sorted lines_to_replace")
                                     ok, _r = v.call("merge_matrices", sig, inp,
                                                     lambda: mo.merge_matrices(A, B, np.array(sel, dtype=np.int64), fmt))
                                     sw.case(("merge", fmt, rev, ag, bg, sel), nontrivial=k > 0 and dA.any() and dB.any(), sample=inp)
@@ -595,7 +623,7 @@ def _sweep_binary(rep, mo):
                                 A, dA, _ = _build_shape(gA, shA, fmt, rev)
                                 B, dB, _ = _build_shape(gB, shB, fmt, rev)
                                 inp = {"A": gA, "B": gB, "shape_B": shB, "format": fmt, "reversed_indices": rev}
-                                sig = ssig + (" B has no lines" if nlb == 0 else "")
+                                sig = "B has no lines" if nlb == 0 else "B has lines"
                                 exp = np.vstack((dA, dB)) if fmt == "csr" else np.hstack((dA, dB))
                                 ok, _r = v.call("stack_mat", sig, inp, lambda: mo.stack_mat(A, B))
                                 sw.case(("stack_mat", fmt, rev, ag, bg), nontrivial=dA.any() and dB.any(), sample=inp)
@@ -611,7 +639,7 @@ def _sweep_binary(rep, mo):
                                     A2, dA2, _ = _build_shape(gA, shA, fmt, rev)
                                     B2, dB2, _ = _build_shape(gB2, shB2, fmt, rev)
                                     inp2 = {"A": gA, "B": gB2, "shape_B": shB2, "format": fmt, "reversed_indices": rev}
-                                    sig2 = ssig + (" B has no lines but a non-zero other dimension" if nlb == 0 else "")
+                                    sig2 = "B has no lines but a non-zero other dimension" if nlb == 0 else "B has lines"
                                     ok, R = v.call("stack_diag", sig2, inp2, lambda: mo.stack_diag(A2, B2))
                                     sw.case(("stack_diag", fmt, rev, ag, bg, nmb), nontrivial=dA2.any() and dB2.any())
                                     if ok:
@@ -631,7 +659,7 @@ def _sweep_binary(rep, mo):
             A, dA, _ = _build(gA, fmt, rev)
             B, dB, _ = _build_shape(gB, shB, fmt, rev)
             inp = {"A": gA, "B": gB, "shape_B": shB, "lines": list(sel), "format": fmt, "reversed_indices": rev}
-            sig = _storage_sig(fmt, rev, True) + " 3x3"
+            sig = "unsorted lines_to_replace" if list(sel) != sorted(sel) else "sorted lines_to_replace"
             ok, _r = v.call("merge_matrices", sig, inp, lambda: mo.merge_matrices(A, B, np.array(sel, dtype=np.int64), fmt))
             sw.case(("merge3", fmt, rev, gA, gB, sel), nontrivial=True)
             if ok:
